@@ -44,3 +44,10 @@ PROPS["C12"] = coop("TestProp", "two generated parts: (a) fidelity: payload type
 PROPS["C04"] = coop("TestProp", "two parts. (a) queues: rapid-generated enqueue/dequeue/purge/close/values sequences with bursts across the 1024/1536/2304/... segment boundaries (thorough: past the 100Ki segment cap) and arbitrary int priorities, applied to internal/queues and to a slice / stable-sorted model (differential); (b) worker: generated programs x schedules with concurrency 1 (exact order) and n (prefix at quiescent points); distinct = distinct operation sequence / event-history hash; non-trivial = a queue longer than one segment, a tie between equal priorities, a purge followed by reuse, or >=3 jobs through a worker",
                     extra_parts=[seq("TestC04Queues", quick=(4, 600), thorough=(16, 5000), fuzz={"targets": ["FuzzC04Queues"], "time": "60s", "timeout": 400})])
 PROPS["C04"]["assumptions"] = PROPS["C04"]["assumptions"] + ["queue part: reference models (slice, stable sort by (priority, arrival)) are correct"]
+
+PROPS["C19"] = {"engine": "race", "pkg": "vrace", "test": "TestC19", "replay_test": "TestReplay",
+                "shards": {"quick": 4, "thorough": 16}, "checks": {"quick": 40, "thorough": 400},
+                "wall": {"quick": 900, "thorough": 3300}, "level": "exploration",
+                "rule": "rapid generates client programs (2-5 real goroutines, all worker kinds, batches, cancel/purge, lifecycle calls from one goroutine, introspection from all); every program is executed 3 times on the real runtime under the race detector, with random yields inserted before library statements; evaluations = program executions; non-trivial = an execution in which >=2 client goroutines were running while a worker function executed; distinct = distinct (program, repetition)",
+                "assumptions": ["the Go race detector judges only the executions it sees", "a report counts if either stack has a frame in the module's library packages",
+                                "blocking calls are abandoned after 2 s (counted, never reported)"]}
